@@ -147,11 +147,31 @@ class ByteLoopInterp:
         self.ghost = ghost                # track #g = zeros consumed since the last run count was written
         self.counter = counter            # additionally track #d = #g - counter when the count byte is a counter
         params = [a.arg for a in self.fn.args.args if a.arg not in ("self", "cls")]
-        if len(params) != 1:
-            raise AnalysisError(f"{fi.qual}: expected exactly one data parameter, found {params}")
+        if not params or self.fn.args.vararg or self.fn.args.kwarg:
+            raise AnalysisError(f"{fi.qual}: expected a data parameter, found {params}")
         top = Frame(self.fn, fi.module, "", fi.qual)
         top.refs[params[0]] = ("data",)
         self.frames = [top]
+        # further parameters: the property speaks about every caller, in particular one that passes only the data -
+        # they are analysed at their default (None / a constant); one without a default is an unknown integer
+        self.none_keys = set()
+        self.init_env = {}
+        extra = [a for a in self.fn.args.args if a.arg not in ("self", "cls")][1:] + list(self.fn.args.kwonlyargs)
+        pos_defaults = dict(zip([a.arg for a in self.fn.args.args][len(self.fn.args.args) - len(self.fn.args.defaults):],
+                                self.fn.args.defaults))
+        kw_defaults = {a.arg: d for a, d in zip(self.fn.args.kwonlyargs, self.fn.args.kw_defaults) if d is not None}
+        for a in extra:
+            d = pos_defaults.get(a.arg, kw_defaults.get(a.arg))
+            if d is None:
+                self.init_env[a.arg] = (-INF, INF)
+            elif isinstance(d, ast.Constant) and d.value is None:
+                self.none_keys.add(a.arg)
+            else:
+                v = ConstEval(repo, fi.module).ev(d)
+                if isinstance(v, bool) or not isinstance(v, int):
+                    raise AnalysisError(f"{fi.qual}: default of parameter {a.arg} is not None / an integer constant")
+                self.init_env[a.arg] = (v, v)
+        self.extra_params = [a.arg for a in extra]
         self.obj_refs = {}                # "<obj prefix>.<attr>" -> reference
         self.sym_alias = {}               # int parameter key -> key of the caller's variable it was bound from
         self.buffers = set()              # buffer keys
@@ -189,7 +209,12 @@ class ByteLoopInterp:
         if isinstance(e, ast.Call) and ap(e.func) in ("iter", "bytes", "memoryview", "bytearray") and len(e.args) == 1 \
                 and not e.keywords:
             r = self.ref_of(e.args[0])
-            return r if r == ("data",) else None
+            return r if r is not None and r[0] in ("data", "gen") else None
+        if isinstance(e, ast.Call) and isinstance(e.func, ast.Name) and e.func.id in self.cur.closures \
+                and not e.args and not e.keywords:
+            g = self.cur.closures[e.func.id]
+            if any(isinstance(x, (ast.Yield, ast.YieldFrom)) for x in ast.walk(g)):
+                return ("gen", g)              # generator closure over the input (validated when it is iterated)
         if isinstance(e, ast.Subscript) and isinstance(e.slice, ast.Slice) and e.slice.step is None:
             r = self.ref_of(e.value)          # a slice of the input is again "some bytes of the input"
             return r if r == ("data",) else None
@@ -270,6 +295,8 @@ class ByteLoopInterp:
             k = self.key_of(e)
             if k is not None and k in env:
                 return env[k]
+            if k is not None and k in self.none_keys:
+                self.bad(e, "parameter that is None at its default used as a number")
             if self.ref_of(e) is not None:
                 self.bad(e, "buffer / object / input used as a number")
             v = None
@@ -308,6 +335,15 @@ class ByteLoopInterp:
                     return env[f"#len:{r[1]}"]
                 if r == ("data",):
                     return (0, INF)
+            run = None
+            if fn == "len" and len(e.args) == 1 and isinstance(e.args[0], ast.Call) and ap(e.args[0].func) in ("list", "tuple", "bytes") \
+                    and len(e.args[0].args) == 1:
+                run = self.ref_of(e.args[0].args[0])
+            if fn == "sum" and len(e.args) == 1 and isinstance(e.args[0], ast.GeneratorExp) and len(e.args[0].generators) == 1 \
+                    and isinstance(e.args[0].elt, ast.Constant) and e.args[0].elt.value == 1 and not e.args[0].generators[0].ifs:
+                run = self.ref_of(e.args[0].generators[0].iter)
+            if run is not None and run[0] == "run":
+                return (1, INF)               # a group produced by itertools.groupby is never empty
             if fn in ("min", "max") and len(e.args) == 2 and not e.keywords:
                 a, b = self.ev(e.args[0], env), self.ev(e.args[1], env)
                 f = min if fn == "min" else max
@@ -385,6 +421,16 @@ class ByteLoopInterp:
         if isinstance(t, ast.Compare):
             if len(t.ops) != 1:
                 self.bad(t, "chained comparison")
+            if isinstance(t.ops[0], (ast.Is, ast.IsNot)) and isinstance(t.comparators[0], ast.Constant) and t.comparators[0].value is None:
+                k = self.key_of(t.left) if isinstance(t.left, (ast.Name, ast.Attribute)) else None
+                if k is not None and k in self.none_keys:
+                    is_none = True
+                elif k is not None and k in env:
+                    is_none = False
+                else:
+                    self.bad(t, "None test on something that is neither a parameter nor an integer local")
+                truth = is_none == isinstance(t.ops[0], ast.Is)
+                return (env, None) if truth else (None, env)
             return self._cmp(t, t.left, t.ops[0], t.comparators[0], env)
         if isinstance(t, ast.Constant):
             return (env, None) if t.value else (None, env)
@@ -460,13 +506,113 @@ class ByteLoopInterp:
                 v = self.cev().ev(e)
             if isinstance(v, (bytes, bytearray)):
                 return bytes(v)
+            # bytes((0x00, N)) / bytes([..]) of integer constants
+            if type(v).__name__ == "CallVal" and v.func in ("bytes", "bytearray") and len(v.args) == 1 and not v.kwargs \
+                    and isinstance(v.args[0], (tuple, list)) and all(isinstance(x, int) and not isinstance(x, bool)
+                                                                      and 0 <= x <= 255 for x in v.args[0]):
+                return bytes(v.args[0])
         return None
+
+    def _static_table(self, e):
+        """Module/class-level constant sequence of bytes rows (literal, or built by a comprehension over range()),
+        evaluated from its defining expression; None if e is not such a table."""
+        if not isinstance(e, (ast.Name, ast.Attribute)) or self.ref_of(e) is not None or \
+                (isinstance(e, ast.Name) and self._is_local(e.id)):
+            return None
+        node = None
+        if isinstance(e, ast.Name):
+            node = self.repo.module_assign(self.cur.module, e.id)
+        elif isinstance(e.value, ast.Name):
+            owner = self.repo.resolve_class(e.value.id, self.cur.module)
+            node = self.repo.class_attr(owner, e.attr) if owner is not None else None
+        if node is None:
+            return None
+        try:
+            v = self._static_eval(node, {})
+        except AnalysisError:
+            return None
+        if isinstance(v, (tuple, list)) and v and all(isinstance(r, (bytes, bytearray)) for r in v):
+            return [bytes(r) for r in v]
+        return None
+
+    def _static_eval(self, n, env, depth=0):
+        """Evaluate a constant-building expression (ints, bytes, + - * //, max/min/len, range, tuple/list of a
+        single-loop comprehension over range) - never runs repository code."""
+        if depth > 20:
+            raise AnalysisError("static table too deep")
+        ev = lambda x: self._static_eval(x, env, depth + 1)      # noqa: E731
+        if isinstance(n, ast.Constant) and isinstance(n.value, (int, bytes)) and not isinstance(n.value, bool):
+            return n.value
+        if isinstance(n, ast.Name):
+            if n.id in env:
+                return env[n.id]
+            v = self.cev().ev(n)
+            if isinstance(v, (int, bytes)) and not isinstance(v, bool):
+                return v
+        if isinstance(n, (ast.Tuple, ast.List)):
+            return [ev(x) for x in n.elts]
+        if isinstance(n, ast.BinOp) and isinstance(n.op, (ast.Add, ast.Sub, ast.Mult, ast.FloorDiv)):
+            a, b = ev(n.left), ev(n.right)
+            if isinstance(n.op, ast.Mult) and (isinstance(a, int) and isinstance(b, int) or isinstance(a, bytes) != isinstance(b, bytes)):
+                k = b if isinstance(a, bytes) else a
+                if isinstance(k, int) and abs(k) > 1 << 16:
+                    raise AnalysisError("static table too large")
+                return a * b
+            if isinstance(a, int) and isinstance(b, int):
+                return a + b if isinstance(n.op, ast.Add) else a - b if isinstance(n.op, ast.Sub) else a // b if b else 0
+            if isinstance(a, bytes) and isinstance(b, bytes) and isinstance(n.op, ast.Add):
+                return a + b
+        if isinstance(n, ast.Call) and not n.keywords:
+            fn = ap(n.func)
+            if fn in ("max", "min") and n.args:
+                vals = [ev(a) for a in n.args]
+                if all(isinstance(v, int) for v in vals):
+                    return max(vals) if fn == "max" else min(vals)
+            if fn == "len" and len(n.args) == 1:
+                return len(ev(n.args[0]))
+            if fn in ("tuple", "list") and len(n.args) == 1:
+                return list(ev(n.args[0]))
+            if fn == "bytes" and len(n.args) == 1:
+                v = ev(n.args[0])
+                if isinstance(v, int) and 0 <= v <= 1 << 16:
+                    return bytes(v)
+                if isinstance(v, list) and all(isinstance(x, int) and 0 <= x <= 255 for x in v):
+                    return bytes(v)
+            if fn == "range" and 1 <= len(n.args) <= 3:
+                args = [ev(a) for a in n.args]
+                if all(isinstance(a, int) for a in args) and len(range(*args)) <= 1 << 12:
+                    return list(range(*args))
+        if isinstance(n, (ast.GeneratorExp, ast.ListComp)) and len(n.generators) == 1 and not n.generators[0].ifs \
+                and isinstance(n.generators[0].target, ast.Name):
+            seq = ev(n.generators[0].iter)
+            if isinstance(seq, list):
+                return [self._static_eval(n.elt, {**env, n.generators[0].target.id: x}, depth + 1) for x in seq]
+        raise AnalysisError(f"not a static constant: {norm(n)}")
 
     def _items(self, node, e, env):
         """Byte items of an `extend` argument: list of ('b', itv, symbol) / ('rep', [items], count-itv)."""
         cb = self._const_bytes(e, env)
         if cb is not None:
             return [("b", (v, v), None) for v in cb]
+        r = self.ref_of(e)
+        if r is not None and r[0] == "run":
+            return [("rep", [("b", env[f"#run:{r[1]}"], "#input")], (1, INF))]
+        if isinstance(e, ast.Subscript) and not isinstance(e.slice, ast.Slice):
+            table = self._static_table(e.value)
+            if table is not None:
+                idx = self.ev(e.slice, env)
+                lo, hi = max(idx[0], -INF), idx[1]
+                if lo < 0 or hi >= len(table):
+                    missing = f"{int(max(lo, len(table)))}..{int(hi)}" if hi >= len(table) and hi != INF else "some values"
+                    self._viol(self.site_viol, node, f"table `{norm(e.value)}` has {len(table)} rows but is indexed with values in "
+                                                     f"[{lo}, {hi}]: no row for {missing} (the lookup raises on that input byte)")
+                    lo, hi = max(lo, 0), min(hi, len(table) - 1)
+                rows = table[int(lo):int(hi) + 1]
+                vals = {b for row in rows for b in row}
+                if len(vals) > 1:
+                    self.bad(node, "table rows with mixed byte values")
+                v = next(iter(vals)) if vals else 0
+                return [("rep", [("b", (v, v), None)], (min(map(len, rows)), max(map(len, rows))))]
         if isinstance(e, (ast.Tuple, ast.List)):
             return [("b", self.ev(x, env), self.sym_of(x)) for x in e.elts]
         if isinstance(e, ast.Call) and ap(e.func) in ("bytes", "bytearray") and len(e.args) == 1 and not e.keywords:
@@ -965,10 +1111,41 @@ class ByteLoopInterp:
         # `for b in <input>` / `for b in <iterator over the input>`.  Loops over one shared iterator may nest:
         # whatever part of the input a loop sees is an arbitrary byte sequence, so every such loop is analysed as
         # "any number of arbitrary bytes" - a sound over-approximation of the shared-iterator semantics.
-        if self.ref_of(st.iter) != ("data",) or not isinstance(st.target, ast.Name) or st.orelse:
+        src_ref = self.ref_of(st.iter)
+        prologue, genvar, group = [], None, None
+        if src_ref is not None and src_ref[0] == "gen":
+            # generator closure `for b in <input>: <checks>; yield b`: every pull runs the checks, then hands b over
+            g = src_ref[1]
+            inner = [x for x in g.body if not (isinstance(x, ast.Expr) and isinstance(x.value, ast.Constant))]
+            ok = len(inner) == 1 and isinstance(inner[0], ast.For) and self.ref_of(inner[0].iter) == ("data",) \
+                and isinstance(inner[0].target, ast.Name) and not inner[0].orelse and inner[0].body
+            if ok:
+                last = inner[0].body[-1]
+                ok = isinstance(last, ast.Expr) and isinstance(last.value, ast.Yield) and isinstance(last.value.value, ast.Name) \
+                    and last.value.value.id == inner[0].target.id and \
+                    sum(1 for x in ast.walk(g) if isinstance(x, (ast.Yield, ast.YieldFrom))) == 1
+            if not ok:
+                self.bad(st, "generator that is not `for b in <input>: ...; yield b`")
+            prologue, genvar = inner[0].body[:-1], self.cur.key(inner[0].target.id)
+        elif isinstance(st.iter, ast.Call) and (ap(st.iter.func) or "").split(".")[-1] == "groupby" and st.iter.args \
+                and self.ref_of(st.iter.args[0]) == ("data",):
+            # itertools.groupby(<input>, pred): maximal runs of bytes on which pred is constant, each non-empty
+            pred = st.iter.args[1] if len(st.iter.args) == 2 else next((k.value for k in st.iter.keywords if k.arg == "key"), None)
+            tg = st.target
+            if pred is None or not (isinstance(tg, ast.Tuple) and len(tg.elts) == 2 and all(isinstance(x, ast.Name) for x in tg.elts)):
+                self.bad(st, "groupby without a key predicate / a (key, run) target")
+            group = (pred, self.cur.key(tg.elts[0].id), tg.elts[1].id)
+            self.ghost_undecided = True       # bytes are not consumed one by one: no per-byte accounting
+        elif src_ref != ("data",):
             self.bad(st, "loop that is not `for <byte> in <input>`")
+        if st.orelse or (group is None and not isinstance(st.target, ast.Name)):
+            self.bad(st, "loop that is not `for <byte> in <input>`")
+        if group is not None:
+            return self._groupby_loop(st, state, fl, group)
         lv = self.cur.key(st.target.id)
         self.loopvars.add(lv)
+        if genvar is not None:
+            self.loopvars.add(genvar)
 
         def iteration(head):
             zero, nonzero = {}, {}
@@ -982,6 +1159,14 @@ class ByteLoopInterp:
                 nz = dict(env)
                 nz[lv] = (1, 255)
                 nonzero[ph] = nz
+            if genvar is not None:
+                for cls in (zero, nonzero):
+                    for ph in cls:
+                        cls[ph][genvar] = cls[ph][lv]
+                pz, pn = self.block(prologue, zero), self.block(prologue, nonzero)
+                if pz.brk or pz.cont or pn.brk or pn.cont or pz.ret or pn.ret:
+                    self.bad(st, "generator that leaves its loop before yielding")
+                zero, nonzero = pz.next, pn.next
             a, b = self.block(st.body, zero), self.block(st.body, nonzero)
             res = Flow()
             res.next = _state_join(_state_join(a.next, b.next), _state_join(a.cont, b.cont))
@@ -989,8 +1174,57 @@ class ByteLoopInterp:
             res.ret = a.ret + b.ret
             return res
 
+        drop = {lv, genvar}
+        return self._fixpoint(st, state, fl, iteration, drop)
+
+    def _pred_truth(self, pred, itv):
+        """Truth of the groupby key predicate on a byte interval: True / False / None (not constant on it)."""
+        if isinstance(pred, ast.Lambda) and len(pred.args.args) == 1:
+            fr = Frame(pred, self.cur.module, "<key>$", "<lambda>")
+            param, body = pred.args.args[0].arg, pred.body
+        else:
+            kind = self._callee(ast.Call(func=pred, args=[], keywords=[])) if isinstance(pred, (ast.Name, ast.Attribute)) else None
+            if kind is None or kind[0] != "func" or len(kind[1].node.args.args) != 1:
+                return None
+            g = kind[1]
+            stmts = [x for x in g.node.body if not (isinstance(x, ast.Expr) and isinstance(x.value, ast.Constant))]
+            if len(stmts) != 1 or not isinstance(stmts[0], ast.Return) or stmts[0].value is None:
+                return None
+            fr = Frame(g.node, g.module, f"{g.qual}$", g.qual)
+            param, body = g.node.args.args[0].arg, stmts[0].value
+        self.frames.append(fr)
+        try:
+            t, f = self.split(body, {fr.key(param): itv})
+        finally:
+            self.frames.pop()
+        if t is not None and f is None:
+            return True
+        if f is not None and t is None:
+            return False
+        return None
+
+    def _groupby_loop(self, st, state, fl, group):
+        pred, keyk, runname = group
+        classes = [((0, 0), self._pred_truth(pred, (0, 0))), ((1, 255), self._pred_truth(pred, (1, 255)))]
+        if any(t is None for _i, t in classes) or classes[0][1] == classes[1][1]:
+            self.bad(st, "groupby key that does not separate zero bytes from the others")
+        self.cur.refs[runname] = ("run", self.cur.key(runname))
+        runk = f"#run:{self.cur.key(runname)}"
+
+        def iteration(head):
+            res = Flow()
+            for itv, truth in classes:
+                sub = {ph: {**env, keyk: (int(truth), int(truth)), runk: itv} for ph, env in head.items()}
+                a = self.block(st.body, sub)
+                res.next = _state_join(res.next, _state_join(a.next, a.cont))
+                res.brk = _state_join(res.brk, a.brk)
+                res.ret += a.ret
+            return res
+        return self._fixpoint(st, state, fl, iteration, {keyk, runk})
+
+    def _fixpoint(self, st, state, fl, iteration, drop):
         def strip(s):
-            return {ph: {k: v for k, v in env.items() if k != lv} for ph, env in s.items()}
+            return {ph: {k: v for k, v in env.items() if k not in drop} for ph, env in s.items()}
         saved_record = self.record
         self.record = False
         head = strip(state)
@@ -1014,7 +1248,7 @@ class ByteLoopInterp:
 
     # ---- driver
     def run(self):
-        init = {"idle" if self.typestate else "-": ({"#g": (0, 0), "#d": (0, 0)} if self.ghost else {})}
+        init = {"idle" if self.typestate else "-": {**({"#g": (0, 0), "#d": (0, 0)} if self.ghost else {}), **self.init_env}}
         fl = self.block(self.fn.body, init)
         if fl.next:
             self.bad(self.fn, "function can fall off its end without returning the buffer")
@@ -1047,6 +1281,10 @@ def r1(ctx):
                "`len(buffer) > cap -> raise` test evaluated since the previous growth" if hi == INF
                else f"len <= {int(hi)}")
     ctx.stats["C03.R1.bound"] = worst if worst != INF else "unbounded"
+    for nid, node in it.sites.items():
+        v = it.site_viol.get(nid, [])
+        if v:
+            ctx.ob("C03.R1", f"{f.qual}: `{norm(node)}` is defined for every input byte", False, ctx.w(f, node), "; ".join(v))
     # the cap must refuse, not silently truncate
     for g in it.len_guards.values():
         refuses = any(isinstance(x, ast.Raise) for x in walk(g))
@@ -1130,7 +1368,13 @@ def _must_hold_at_sinks(fi, call, is_sink):
         if isinstance(a, ast.stmt):
             stmt = a
             break
-    direct = [c for c in calls(stmt) if any(a is call for a in c.args) and isinstance(c.func, ast.Attribute)
+    def selects(arg):
+        """arg is the call itself, or a conditional expression one of whose arms is (which arm is taken is judged by
+        the gate conditions of the call)"""
+        if arg is call:
+            return True
+        return isinstance(arg, ast.IfExp) and (selects(arg.body) or selects(arg.orelse))
+    direct = [c for c in calls(stmt) if any(selects(a) for a in c.args) and isinstance(c.func, ast.Attribute)
               and (c.func.attr == "write_bytes" or c.func.attr.endswith("BufferReader"))]
     if direct or (isinstance(stmt, ast.Return) and stmt.value is call):
         return [(stmt, None, True)]          # transformed value handed to the consumer directly
